@@ -404,7 +404,13 @@ void VHarness::check(CheckCtx& c) {
   }
   c.state_hash = sh;
   VModel mm;
-  if (ops.size() <= 70) {
+  if (h.weak) {
+    // weak runs (C03): per key, see hm_common.hpp
+    std::map<int64_t, std::vector<int>> by_key;
+    for (int i : ops) by_key[h.ops[i].a].push_back(i);
+    for (auto& kv : by_key)
+      if (kv.second.size() <= 70 && !check_linearizable(c, *this, mm, VModel::State(), kv.second, "not-linearizable")) return;
+  } else if (ops.size() <= 70) {
     if (!check_linearizable(c, *this, mm, VModel::State(), ops, "not-linearizable")) return;
   } else if ((int)c.prog.threads.size() == 1) {
     VModel::State st;
